@@ -1057,6 +1057,7 @@ def _deviations(case, o):
         def rag(c):
             return c[0] == 'rag' or (c[0] == 'nest' and any(x[0] == 'rag' for x in c[1]))
         views = [False] * len(case['schema'])
+        cur_cols = o['t0'].get('cols', [])
         for i, (op, st, a, b) in enumerate(zip(case['prog'], o['steps'], twin_errs, lazy_errs)):
             if op[0] == 'index':
                 predicted = a or any(views)
@@ -1068,7 +1069,12 @@ def _deviations(case, o):
                 continue
             if a != b:
                 dev.append((i, op, dict(err='the unobserved run %s here, the observed one did not' % ('raised' if b else 'did not raise')), None))
+            if 'err' in st and op[0] == 'sort' and op[1] < len(cur_cols) and cur_cols[op[1]][0] == 'rag' \
+                    and cur_cols[op[1]][1] in ('I', 'F', 'B'):
+                # a sort_by that raises on a List[int] key has flattened that column of its operand
+                views = [False if j == op[1] else v for j, v in enumerate(views)]
             if 'cols' in st:
+                cur_cols = st['cols']
                 if op[0] in ('take', 'mask', 'slice', 'sort'):
                     views = [rag(c) for c in st['cols']]
                 elif op[0] == 'replace':
